@@ -437,7 +437,7 @@ class SqliteSem:
         if name == "trim":
             if len(a) != 1:
                 raise Unsupported("trim with characters")
-            return [S.strip_ws(c, self.str_len, S.SQLITE_TRIM) for c in a[0]]
+            return [S.strip_ws(c, self.str_len, S.SQLITE_TRIM, side=self.side) for c in a[0]]
         if name == "replace":
             pat, rep = self.const_str(args[1]), self.const_str(args[2])
             if pat is None or rep is None:
